@@ -99,6 +99,81 @@ _SHUTDOWN_SHAPES = {
 }
 
 
+# AST digests of BaseStandaloneNetworkServerImpl._run_sync_or_else / server_close
+_CLOSE_SHAPES = {
+    # as found: suppress(RuntimeError) also swallows the BusyResourceError of the asynchronous server_close() (close guard
+    # held during the set-up of serve_forever) and __is_closed is set whatever happened
+    ("6af78529766b9251", "5e02ccf599498826"): False,
+    # meta/fixes/C18_standalone_close_during_setup.diff: BusyResourceError propagates, __is_closed only set on success
+    ("a9ace5c2b05a9b4b", "366afca0c975b2e4"): True,
+}
+
+
+def _parse(rel):
+    import ast
+    import os
+    from common.runner import REPO
+    try:
+        return ast.parse(open(os.path.join(REPO, rel)).read())
+    except SyntaxError as exc:
+        raise TranslateError(f"{rel}: does not parse: {exc}")
+
+
+def _find_def(node, *names):
+    import ast
+    for name in names:
+        found = None
+        for ch in ast.iter_child_nodes(node):
+            if isinstance(ch, (ast.FunctionDef, ast.AsyncFunctionDef, ast.ClassDef)) and ch.name == name:
+                found = ch
+        if found is None:
+            raise TranslateError(f"definition {'.'.join(names)} not found")
+        node = found
+    return node
+
+
+def _tr_nst_run():
+    """NetworkServerThread.run: `try: serve_forever(is_up_event=ev) finally: ev.set()` -> True;
+    `... except BaseException: ev.set(); raise` -> False; anything else is rejected."""
+    import ast
+    fn = _find_def(_parse(SRC + "servers/threads_helper.py"), "NetworkServerThread", "run")
+    body = [s for s in fn.body if not (isinstance(s, ast.Expr) and isinstance(s.value, ast.Constant))]
+    where = "threads_helper.NetworkServerThread.run"
+    if len(body) != 1 or not isinstance(body[0], ast.Try) or body[0].orelse:
+        raise TranslateError(f"{where}: body is not a single try statement")
+    t = body[0]
+    if len(t.body) != 1 or ast.unparse(t.body[0]) != "self.__server.serve_forever(is_up_event=self.__is_up_event)":
+        raise TranslateError(f"{where}: try body is not the serve_forever call")
+    setter = "self.__is_up_event.set()"
+    if not t.handlers and len(t.finalbody) == 1 and ast.unparse(t.finalbody[0]) == setter:
+        return True
+    if not t.finalbody and len(t.handlers) == 1 and t.handlers[0].type is not None \
+            and ast.unparse(t.handlers[0].type) == "BaseException" and len(t.handlers[0].body) == 2 \
+            and ast.unparse(t.handlers[0].body[0]) == setter and ast.unparse(t.handlers[0].body[1]) == "raise":
+        return False
+    raise TranslateError(f"{where}: unrecognised way of setting the is_up event")
+
+
+def _tr_standalone_exit_order():
+    """BaseStandaloneNetworkServerImpl.serve_forever: the exit stack must unwind as
+    re-acquire the bootstrap lock -> reset_values -> is_shutdown.set(), i.e. be registered in the opposite order
+    (the thread-level model's tear-down segment V5 is exactly that).  Fail closed otherwise."""
+    import ast
+    fn = _find_def(_parse(_BASE), "BaseStandaloneNetworkServerImpl", "serve_forever")
+    order = []
+    for node in ast.walk(fn):
+        if isinstance(node, ast.Expr) and isinstance(node.value, ast.Call):
+            src = ast.unparse(node.value)
+            if src.startswith("server_exit_stack.callback("):
+                order.append((node.lineno, src[len("server_exit_stack.callback("):-1]))
+    names = [n for _l, n in sorted(order)]
+    expected = ["is_shutdown.set", "reset_values", "reacquire_bootstrap_lock_on_shutdown"]
+    alt = ["self.__is_shutdown.set", "reset_values", "reacquire_bootstrap_lock_on_shutdown"]   # shape before 092d2b8
+    if names not in (expected, alt):
+        raise TranslateError("_base.py BaseStandaloneNetworkServerImpl.serve_forever: exit-stack callbacks are registered as "
+                             f"{names}; the tear-down must unwind as re-acquire lock -> reset_values -> is_shutdown.set")
+
+
 def params():
     """coq/Gen/ParamsC18.v: whether the datagram server guards the restart of a client task at tear-down.
     Fail closed: only the two known shapes of the two functions are accepted."""
@@ -111,14 +186,25 @@ def params():
     if key2 not in _SHUTDOWN_SHAPES:
         raise TranslateError(f"_base.py BaseStandaloneNetworkServerImpl.shutdown has an unknown shape {key2}: the wait on the "
                              "threading event must be re-modelled")
-    return ("(* datagram.py: is the restart of a client task skipped when that task was cancelled (server tear-down)? *)\n"
+    nst = _tr_nst_run()
+    _tr_standalone_exit_order()
+    key3 = (anchor_digest(_BASE, "BaseStandaloneNetworkServerImpl._run_sync_or_else"),
+            anchor_digest(_BASE, "BaseStandaloneNetworkServerImpl.server_close"))
+    if key3 not in _CLOSE_SHAPES:
+        raise TranslateError(f"_base.py BaseStandaloneNetworkServerImpl._run_sync_or_else / server_close have an unknown shape {key3}")
+    return ("(* _base.py standalone server_close(): does the BusyResourceError of the close guard reach the caller (and leave "
+            "__is_closed unset)? *)\n"
+            f"Definition standalone_close_propagates_busy : bool := {'true' if _CLOSE_SHAPES[key3] else 'false'}.\n"
+            "(* threads_helper.py NetworkServerThread.run: is_up_event.set() in a finally clause (else: only on an exception) *)\n"
+            f"Definition nst_sets_up_in_finally : bool := {'true' if nst else 'false'}.\n"
+            "(* datagram.py: is the restart of a client task skipped when that task was cancelled (server tear-down)? *)\n"
             f"Definition udp_restart_guarded : bool := {'true' if _UDP_RESTART_SHAPES[key] else 'false'}.\n"
             "(* _base.py standalone shutdown(): does it wait for the event of the run it saw under the bootstrap lock? *)\n"
             f"Definition standalone_shutdown_guarded : bool := {'true' if _SHUTDOWN_SHAPES[key2] else 'false'}.\n")
 
 
 L_SERVE, L_SHUTDOWN, L_CLOSE, L_CONNECT, L_DISCONNECT, L_OBSERVE, L_REL_FACTORY, L_REL_INIT, L_REL_CLIENT, L_UDPQ = range(10)
-L_PRE_SHUTDOWN, L_RESUME = 10, 11
+L_PRE_SHUTDOWN, L_RESUME, L_NST_START = 10, 11, 12
 CALLS = (L_SERVE, L_SHUTDOWN, L_CLOSE, L_PRE_SHUTDOWN)
 
 
@@ -441,13 +527,36 @@ def _run_standalone(inp):
     from easynetwork.servers.handlers import AsyncDatagramRequestHandler, AsyncStreamRequestHandler
     kind, _gates, labels = inp[0], inp[1], inp[2]
     never = threading.Event()
+    gate_init, gate_teardown = bool(_gates[1]), bool(_gates[2])
+    init_waiters = []          # (loop, asyncio.Event) of a service_init() held back in the serving thread's loop
+    init_lock = threading.Lock()
+
+    async def held_service_init():
+        if gate_init:
+            ev = asyncio.Event()
+            with init_lock:
+                init_waiters.append((asyncio.get_running_loop(), ev))
+            await ev.wait()
+
+    def release_service_init():
+        with init_lock:
+            waiters, init_waiters[:] = list(init_waiters), []
+        for loop, ev in waiters:
+            with contextlib.suppress(RuntimeError):
+                loop.call_soon_threadsafe(ev.set)
 
     class SH(AsyncStreamRequestHandler):
+        async def service_init(self, exit_stack, server):
+            await held_service_init()
+
         async def handle(self, client):
             req = yield
             await client.send_packet("re:" + req)
 
     class DH(AsyncDatagramRequestHandler):
+        async def service_init(self, exit_stack, server):
+            await held_service_init()
+
         async def handle(self, client):
             req = yield
             if req == "busy":
@@ -485,6 +594,52 @@ def _run_standalone(inp):
     else:
         from easynetwork.servers.standalone_udp import StandaloneUDPNetworkServer
         srv = StandaloneUDPNetworkServer("127.0.0.1", 0, DatagramProtocol(StringLineSerializer()), DH(), logger=logger)
+    # tear-down gate: the serving thread is held back right before it RE-acquires the bootstrap lock at the end of
+    # serve_forever (second acquisition by that thread), i.e. between two callbacks of its exit stack
+    teardown_gate = threading.Event()
+    if gate_teardown:
+        from easynetwork.lowlevel._lock import ForkSafeLock
+
+        class GatedRLock:
+            def __init__(self):
+                self._lock = threading.RLock()
+                self._count = {}
+
+            def acquire(self, *a, **kw):
+                t = threading.current_thread()
+                if t.name.startswith("c18-serve"):
+                    self._count[t.name] = self._count.get(t.name, 0) + 1
+                    if self._count[t.name] == 2:
+                        teardown_gate.wait(WATCHDOG * 4)
+                return self._lock.acquire(*a, **kw)
+
+            def release(self):
+                return self._lock.release()
+
+            def __enter__(self):
+                self.acquire()
+                return self
+
+            def __exit__(self, *exc):
+                self.release()
+
+        setattr(srv, "_BaseStandaloneNetworkServerImpl__bootstrap_lock", ForkSafeLock(GatedRLock))
+    # exceptions ending a NetworkServerThread are only visible through threading.excepthook
+    thread_excs = {}
+    old_excepthook = threading.excepthook
+    threading.excepthook = lambda args: thread_excs.__setitem__(args.thread.name if args.thread else "?", args.exc_value)
+
+    class _ThreadStatus:
+        """status slot of the serve_forever call made by a NetworkServerThread"""
+
+        def __init__(self, thread):
+            self.thread = thread
+
+        def status(self):
+            if self.thread.is_alive() or self.thread.ident is None:
+                return 0
+            return _status(thread_excs.get(self.thread.name), True)
+
     # start-up window gate: the server factory is called by the serving thread while it holds the close lock and the
     # bootstrap lock (they are released only once the portal exists)
     gated = bool(_gates[0])
@@ -533,12 +688,23 @@ def _run_standalone(inp):
                         clients.append(s)
             elif lab == L_REL_FACTORY:
                 window_gate.set()
+            elif lab == L_REL_INIT:
+                release_service_init()
+            elif lab == L_REL_CLIENT:
+                teardown_gate.set()
+            elif lab == L_NST_START:
+                from easynetwork.servers.threads_helper import NetworkServerThread
+                nst = NetworkServerThread(srv, name=f"c18-serve-nst-{n}", daemon=True)
+                calls.append(_Call(nst.start, f"c18-start-{n}"))
+                calls.append(_ThreadStatus(nst))
             elif lab == L_PRE_SHUTDOWN:
                 calls.append(_Call(srv.shutdown, f"c18-pshutdown-{n}"))
             elif lab == L_RESUME:
                 resume.set()
             if not _quiesce(_loop_threads(before)):
                 stuck = True
+            if lab == L_REL_CLIENT:
+                teardown_gate.clear()      # one-shot: a release with nobody at the gate is not remembered
             if in_window.is_set():
                 serving = listening = 0        # is_serving() would block on the bootstrap lock: that is the window
             else:
@@ -556,6 +722,9 @@ def _run_standalone(inp):
         resume.set()
         _base_mod._threading = real_threading
         window_gate.set()
+        gate_init = False
+        release_service_init()
+        teardown_gate.set()
         if gated:
             setattr(srv, attr, orig_factory)
         for c in clients:
@@ -569,7 +738,10 @@ def _run_standalone(inp):
         t.start()
         t.join(WATCHDOG)
         for c in calls:
+            teardown_gate.set()
+            release_service_init()
             c.thread.join(WATCHDOG)
+        threading.excepthook = old_excepthook
     return obs
 
 
@@ -579,9 +751,9 @@ def _run_standalone(inp):
 def _nontrivial(labels):
     seen_serve = False
     for i, lab in enumerate(labels):
-        if seen_serve and lab in (L_SERVE, L_SHUTDOWN, L_CLOSE, L_CONNECT, L_UDPQ):
+        if seen_serve and lab in (L_SERVE, L_SHUTDOWN, L_CLOSE, L_CONNECT, L_UDPQ, L_NST_START):
             return True
-        if lab == L_SERVE:
+        if lab in (L_SERVE, L_NST_START):
             seen_serve = True
         if lab == L_CLOSE and any(x in CALLS for x in labels[i + 1:]):
             return True
@@ -591,7 +763,7 @@ def _nontrivial(labels):
 def _mk(kind, gates, labels, extra=()):
     tags = [("async-tcp", "async-udp", "standalone-tcp", "standalone-udp")[kind], f"len{min(len(labels), 8)}",
             "gates" + "".join(map(str, gates))] + list(extra)
-    for name, lab in (("serve", 0), ("shutdown", 1), ("close", 2), ("connect", 3), ("udp-queued", 9)):
+    for name, lab in (("serve", 0), ("shutdown", 1), ("close", 2), ("connect", 3), ("udp-queued", 9), ("server-thread", 12)):
         if lab in labels:
             tags.append("has-" + name)
     return dict(input=[kind, list(gates), list(labels)], tags=tags, nontrivial=_nontrivial(labels))
@@ -645,6 +817,25 @@ def cases(tier, rng, escalate):
                 for pre in ([], [L_CLOSE], [L_SHUTDOWN]):
                     seq = pre + [L_SERVE] + ([inside] if inside is not None else []) + [L_REL_FACTORY] + after
                     yield _mk(kind, (1, 0, 0), seq, ["startup-window"])
+    # tear-down window of the serving thread (held back before it re-acquires the bootstrap lock): gates (0,0,1), release 8
+    tl = 4 if thorough else 3
+    for kind in (2, 3):
+        for n in range(2, tl + 2):
+            for seq in itertools.product([L_SERVE, L_SHUTDOWN, L_CLOSE, L_REL_CLIENT], repeat=n):
+                if seq[0] == L_SERVE and (L_SHUTDOWN in seq or L_CLOSE in seq) and (n <= tl or seq[-1] == L_REL_CLIENT):
+                    yield _mk(kind, (0, 0, 1), seq, ["teardown-window"])
+    # set-up held in service_init (portal exists, locks released): gates (0,1,0), release 7; NetworkServerThread.start()
+    for kind in (2, 3):
+        for n in range(2, tl + 1):
+            for seq in itertools.product([L_SERVE, L_NST_START, L_SHUTDOWN, L_CLOSE, L_REL_INIT], repeat=n):
+                if seq[0] in (L_SERVE, L_NST_START):
+                    yield _mk(kind, (0, 1, 0), seq, ["setup-held"])
+        for n in range(1, tl + 1):
+            for seq in itertools.product([L_NST_START, L_SHUTDOWN, L_CLOSE], repeat=n):
+                if L_NST_START in seq:
+                    yield _mk(kind, (0, 0, 0), seq, ["server-thread"])
+        for seq in ([12, 1, 8, 0, 8], [12, 2, 12, 8], [0, 1, 12, 8, 1, 8]):
+            yield _mk(kind, (0, 0, 1), seq, ["teardown-window", "server-thread"])
     # shutdown() pre-empted between its locked section and its event wait
     for kind in (2, 3):
         for seq in ([10, 11], [10, 0, 11], [10, 0, 11, 1], [0, 10, 11], [0, 10, 0, 11], [10, 2, 11], [10, 0, 2, 11],
@@ -673,7 +864,12 @@ def cases(tier, rng, escalate):
 def oracle(inp):
     kind, gates, labels = inp[0], inp[1], inp[2]
     obs = run_impl(inp)
-    call_kinds = [lab for lab in labels if lab in CALLS]
+    call_kinds = []
+    for lab in labels:
+        if lab == L_NST_START:
+            call_kinds += [L_NST_START, L_SERVE]     # the start() call, then the serve_forever of the thread it started
+        elif lab in CALLS:
+            call_kinds.append(lab)
     closed_ok_at = None          # index of the first observation after a server_close returned normally
     prev = []
     ci = 0
@@ -683,7 +879,8 @@ def oracle(inp):
         kinds = call_kinds[:len(st)]
         for k, s in zip(kinds, st):
             if s in (5, 9):
-                what = {L_SERVE: "serve_forever", L_SHUTDOWN: "shutdown", L_CLOSE: "server_close", L_PRE_SHUTDOWN: "shutdown"}[k]
+                what = {L_SERVE: "serve_forever", L_SHUTDOWN: "shutdown", L_CLOSE: "server_close", L_PRE_SHUTDOWN: "shutdown",
+                        L_NST_START: "NetworkServerThread.start"}[k]
                 return (f"{what} ended with an undocumented exception (status {s}) "
                         f"[kind={kind} labels={labels[:step + 1]}]")
             if s == 6:
@@ -716,6 +913,11 @@ def oracle(inp):
                 if older_running:
                     return (f"shutdown returned while the serve_forever call it stopped has not returned "
                             f"[kind={kind} labels={labels[:step + 1]}]")
+        # NetworkServerThread.start() must return once the server is up or its thread has ended
+        for i, (k, s) in enumerate(zip(kinds, st)):
+            if k == L_NST_START and s == 0 and i + 1 < len(st) and st[i + 1] != 0:
+                return (f"NetworkServerThread.start() is still blocked although the server thread has ended "
+                        f"[kind={kind} labels={labels[:step + 1]}]")
         # a shutdown call (not held back by the harness) neither returned nor stopped the server
         resumed = L_RESUME in labels[:step + 1]
         for i, (k, s) in enumerate(zip(kinds, st)):
@@ -737,6 +939,8 @@ def oracle(inp):
 
 def signature(inp, failure):
     head = failure.split(" [")[0]
+    if inp[0] in (2, 3) and inp[1][1] == 1 and inp[1][0] == 0 and head.startswith("listeners still open after server_close returned"):
+        return "standalone-server_close-during-setup-returns-normally-but-closes-nothing"
     if inp[0] in (2, 3) and L_PRE_SHUTDOWN in inp[2] and head.startswith("shutdown neither returned nor stopped the server"):
         return "standalone-shutdown-lost-wakeup-serve_forever-starts-before-event-wait"
     if inp[0] in (1, 3) and L_UDPQ in inp[2] and head.startswith("serve_forever ended with an undocumented exception (status 5)"):
